@@ -40,6 +40,7 @@ FIXES = {  # subject prefix -> properties whose check must fire when the fix is 
     "fix: delayed attribute": ["C15"],
     "fix: Generator.choice": ["C28"],
     "fix: a broadcast join": ["C39"],
+    "fix: structured and sub-array": ["C12"],
 }
 
 
